@@ -414,7 +414,15 @@ def rule_r3(ctx, rid="C17.R3"):
     f = p.func("buffers.OverflowableBuffer.get")
     g = cfg_of(f)
     fw = [x for x in g.nodes if x.kind == "stmt" and isinstance(x.ast, ast.Return) and isinstance(x.ast.value, ast.Call) and dotted(x.ast.value.func) == "buf.get"]
-    if fw and [norm(a) for a in fw[0].ast.value.args] == [f.params[1], f.params[2]]:
+    def _bound(c, names):
+        """argument texts of call c in the order of the delegate's parameter names (positional or by keyword)"""
+        out = [norm(a) for a in c.args]
+        kws = {k.arg: norm(k.value) for k in c.keywords}
+        for nm in names[len(out):]:
+            if nm in kws:
+                out.append(kws[nm])
+        return out
+    if fw and _bound(fw[0].ast.value, ["numbytes", "skip"]) == [f.params[1], f.params[2]]:
         ctx.r.ok(rid, "get forwards (numbytes, skip) to the delegate", f.loc(fw[0].ast))
     else:
         ctx.r.violation(rid, key_of(f, None, "get-forward"), "OverflowableBuffer.get does not forward (numbytes, skip) unchanged", f.loc())
